@@ -360,6 +360,64 @@ func generateKeyPairRule(P *Program, R *Report) {
 				}
 			}
 		}
+		// the exponent may be drawn by a helper (`x, err := randomExponent(bits, N)`): then the helper's successful
+		// returns are RandomBigInt results that passed the range tests there, the call sits in the per-base loop,
+		// and its error was tested before the power is taken
+		if ex, isEx := phiFirst(x).(*ssa.Extract); isEx && g == nil {
+			if hc, isCall := ex.Tuple.(*ssa.Call); isCall {
+				if h := staticCallee(hc); h != nil && h.Blocks != nil && inModuleFn(h) && ex.Index == 0 {
+					hacc, okAcc := accOfFn(h, Nil)
+					okFresh = okAcc
+					if inLoop {
+						inSame := false
+						for hd := expCall.Block(); hd != nil; hd = hd.Idom() {
+							if ll := findLoop(hd); ll != nil && ll.Body[expCall.Block()] && ll.Body[hc.Block()] {
+								inSame = true
+							}
+						}
+						okFresh = okFresh && inSame
+					}
+					var lo, hi mpResult
+					lo.Holds, hi.Holds = okAcc, okAcc
+					bindCall(hc, h, func() {
+						for _, ret := range returnsOf(h) {
+							rv := ret.Results[0]
+							if isNilConst(rv) {
+								continue
+							}
+							if gg := genCallOf(phiFirst(rv)); gg == nil || calleeName(gg) != "common.RandomBigInt" {
+								okFresh = false
+							}
+							if !okAcc {
+								continue
+							}
+							l1 := (&MustPass{P: P, Match: func(at Atom) bool {
+								gd, ok := P.guardOf(at)
+								return ok && gd.Kind == "big" && sameValue(gd.SubjV, rv) && gd.Rel == ">" && gd.Bound.equal(tconst(2))
+							}}).MustReach(h, ret)
+							h1 := (&MustPass{P: P, Match: func(at Atom) bool {
+								gd, ok := P.guardOf(at)
+								return ok && gd.Kind == "big" && sameValue(gd.SubjV, rv) && gd.Rel == "<" && isN(gd.Bound)
+							}}).MustReach(h, ret)
+							if !l1.Holds {
+								lo = l1
+							}
+							if !h1.Holds {
+								hi = h1
+							}
+						}
+					})
+					checked := (&MustPass{P: P, NoInterproc: true, Match: func(at Atom) bool {
+						c2, idx := callAndResult(at.V)
+						return c2 == hc && idx == hacc.Result && at.Want == Nil
+					}}).MustReach(fn, expCall)
+					R.decide(rule, kGenKey+":"+name+":form", name+" = S^x mod N", okBase, "", P.Pos(expCall.Pos()))
+					R.decide(rule, kGenKey+":"+name+":fresh-x", "its exponent x is a fresh RandomBigInt drawn for this base", okFresh, "drawn by "+FuncKey(h), P.Pos(expCall.Pos()))
+					R.decide(rule, kGenKey+":"+name+":x-range", "2 < x < N was tested", lo.Holds && hi.Holds && checked.Holds, lo.Path+hi.Path+checked.Path, P.Pos(expCall.Pos()))
+					return
+				}
+			}
+		}
 		R.decide(rule, kGenKey+":"+name+":form", name+" = S^x mod N", okBase, "", P.Pos(expCall.Pos()))
 		R.decide(rule, kGenKey+":"+name+":fresh-x", "its exponent x is a fresh RandomBigInt drawn for this base", okFresh, "", P.Pos(expCall.Pos()))
 		lo := (&MustPass{P: P, Match: func(at Atom) bool {
@@ -516,6 +574,7 @@ func goroutineProtocolRule(P *Program, R *Report, rule string) {
 	}
 	// goroutine bodies
 	var bodies []*ssa.Function
+	goOf := map[*ssa.Function]*ssa.Go{}
 	inLoop := map[*ssa.Function]bool{}
 	var loopBound ssa.Value
 	allInstrs(fn, func(i ssa.Instruction) {
@@ -523,8 +582,14 @@ func goroutineProtocolRule(P *Program, R *Report, rule string) {
 		if !ok {
 			return
 		}
+		var f *ssa.Function
 		if mc, ok := g.Call.Value.(*ssa.MakeClosure); ok {
-			f := mc.Fn.(*ssa.Function)
+			f = mc.Fn.(*ssa.Function)
+		} else if sf := g.Call.StaticCallee(); sf != nil && sf.Blocks != nil && inModuleFn(sf) {
+			f = sf // `go worker(args...)`: a named function of the module
+		}
+		if f != nil {
+			goOf[f] = g
 			bodies = append(bodies, f)
 			if l := innermostLoopOf(g.Block()); l != nil {
 				inLoop[f] = true
@@ -544,7 +609,7 @@ func goroutineProtocolRule(P *Program, R *Report, rule string) {
 		}
 	})
 	R.decide(rule, kGenConc+":goroutines", "the watcher and the worker goroutines were found", len(bodies) == 2, fmt.Sprintf("%d go statements", len(bodies)), P.Pos(fn.Pos()))
-	// channel capacities by variable name
+	// channel capacities by variable name (captured variables) and by value (channels handed to a named worker)
 	caps := map[string]ssa.Value{}
 	allInstrs(fn, func(i ssa.Instruction) {
 		if st, ok := i.(*ssa.Store); ok {
@@ -561,7 +626,39 @@ func goroutineProtocolRule(P *Program, R *Report, rule string) {
 				return fv.Name()
 			}
 		}
+		if p, ok := v.(*ssa.Parameter); ok {
+			return p.Name()
+		}
 		return desc(v)
+	}
+	// capOf: the capacity of the channel v denotes inside goroutine body `body`
+	capOf := func(body *ssa.Function, v ssa.Value) ssa.Value {
+		if p, ok := v.(*ssa.Parameter); ok && p.Parent() == body && goOf[body] != nil {
+			args := goOf[body].Call.Args
+			for k, q := range body.Params {
+				if q != p || k >= len(args) {
+					continue
+				}
+				arg := args[k]
+				for {
+					if ct, ok := arg.(*ssa.ChangeType); ok { // chan T -> chan<- T
+						arg = ct.X
+						continue
+					}
+					break
+				}
+				switch a := arg.(type) {
+				case *ssa.MakeChan:
+					return a.Size
+				case *ssa.UnOp:
+					if al, ok := a.X.(*ssa.Alloc); ok {
+						return caps[al.Comment]
+					}
+				}
+			}
+			return nil
+		}
+		return caps[chanName(v)]
 	}
 	isStop := func(n string) bool { return n == "stopped" || n == "stop" }
 	for _, body := range bodies {
@@ -573,7 +670,7 @@ func goroutineProtocolRule(P *Program, R *Report, rule string) {
 					name := chanName(x.Chan)
 					c := FuncKey(f) + ":send(" + name + ")"
 					// plain blocking send: capacity == number of workers and executed at most once before return
-					capV := caps[name]
+					capV := capOf(body, x.Chan)
 					okCap := capV != nil && loopBound != nil && stripConv(capV) == stripConv(loopBound)
 					once := !blockReaches(x.Block(), x.Block())
 					R.decide(rule, c, "a worker's unconditional send cannot block: the channel has one slot per worker and the send is followed by return", okCap && once && inLoop[body],
